@@ -81,6 +81,8 @@ def main():
             if case['demo'] and os.path.exists(case['demo']):
                 rc, o = sh([PY, case['demo']], cwd=copy, env=dict(os.environ, PYTHONPATH=copy, PYTHONDONTWRITEBYTECODE='1'), timeout=600)
                 entry['demo_fails_with_patch'] = rc != 0
+                rc0, o0 = sh([PY, case['demo']], cwd=REPO, env=dict(os.environ, PYTHONPATH=REPO, PYTHONDONTWRITEBYTECODE='1'), timeout=600)
+                entry['demo_passes_without_patch'] = rc0 == 0
             results = {}
             for chk in (forced or case['checks']):
                 t0 = time.time()
@@ -104,7 +106,8 @@ def main():
                                 ('ok' if caught == (case['expect'] == 'violation') else
                                  ('MISSED' if case['expect'] == 'violation' else 'FALSE-ALARM')))
             report[case['id']] = entry
-            print('%-40s suite_ok=%s %s %s' % (case['id'], entry['suite_same_as_baseline'], entry['verdict'],
+            print('%-40s suite_ok=%s demo=%s/%s %s %s' % (case['id'], entry['suite_same_as_baseline'],
+                                               entry.get('demo_fails_with_patch'), entry.get('demo_passes_without_patch'), entry['verdict'],
                                                {k: (v['exit'], v['classes'][:3]) for k, v in results.items()}), flush=True)
         finally:
             shutil.rmtree(scratch, ignore_errors=True)
